@@ -14,14 +14,13 @@ Proof. destruct a, b; cbn; congruence. Qed.
 
 Lemma acct_eqb_eq x y : acct_eqb x y = true -> x = y.
 Proof.
-  destruct x, y. unfold acct_eqb. simpl.
-  intros H. repeat (apply andb_true_iff in H; destruct H as [H ?]).
+  unfold acct_eqb. intros H. repeat (apply andb_true_iff in H; destruct H as [H ?]).
   repeat match goal with
          | h : (_ =? _) = true |- _ => apply N.eqb_eq in h
          | h : status_eqb _ _ = true |- _ => apply status_eqb_eq in h
          | h : Bool.eqb _ _ = true |- _ => apply Bool.eqb_prop in h
          end.
-  subst. reflexivity.
+  destruct x, y. cbn in *. subst. reflexivity.
 Qed.
 
 Lemma table_eqb_eq a b : table_eqb a b = true -> a = b.
@@ -58,8 +57,7 @@ Qed.
 
 Lemma snap_eqb_eq a b : snap_eqb a b = true -> a = b.
 Proof.
-  destruct a, b. unfold snap_eqb. simpl.
-  intros H. repeat (apply andb_true_iff in H; destruct H as [H ?]).
+  unfold snap_eqb. intros H. repeat (apply andb_true_iff in H; destruct H as [H ?]).
   repeat match goal with
          | h : table_eqb _ _ = true |- _ => apply table_eqb_eq in h
          | h : nlist_eqb _ _ = true |- _ => apply nlist_eqb_eq in h
@@ -68,7 +66,7 @@ Proof.
          | h : (_ =? _) = true |- _ => apply N.eqb_eq in h
          | h : Bool.eqb _ _ = true |- _ => apply Bool.eqb_prop in h
          end.
-  now subst.
+  destruct a, b. cbn in *. subst. reflexivity.
 Qed.
 
 (* ------------------------------------------------------------------ C18 oracle *)
